@@ -109,10 +109,19 @@ func (c *AdminOP)SetState(s StateDB){
 
 func (c *AdminOP) Run(input []byte) ([]byte, error) {
 	//[$len + $arg]
+	if len(input) < 32+20 {
+		return nil, errors.New("admin op: input shorter than length word and sender")
+	}
 	dlen := new(big.Int).SetBytes(input[:32]).Uint64()
 	offset := dlen + 32
 	if int(offset) > len(input) {
 		offset = uint64(len(input))
+	}
+	if offset > uint64(len(input)) {
+		offset = uint64(len(input)) // length words beyond the int range
+	}
+	if offset < 32+20 {
+		return nil, errors.New("admin op: length word does not cover the sender")
 	}
 	from := input[32:32+20]
 	data := input[32+20:offset]
